@@ -385,6 +385,20 @@ if __name__ == "__main__":
         checks(work, int(sys.argv[3]) if len(sys.argv) > 3 else 4, int(sys.argv[4]) if len(sys.argv) > 4 else 4)
     elif cmd == "report":
         report(work)
+    elif cmd == "try":
+        # automut.py try <work> <id> <check,check,...>: one mutant against the named quick checks
+        m = {x["id"]: x for x in json.load(open(os.path.join(work, "mutants.json")))}[int(sys.argv[3])]
+        d = _copy(work, 900 + int(sys.argv[3]) % 50)
+        _mutate_into(d, m)
+        env = dict(os.environ, A816_REPO=d, VERIF_OUT=os.path.join(d, ".verif-out"))
+        for c in sys.argv[4].split(","):
+            try:
+                r = subprocess.run(["/verif/check", c, "quick"], env=env, capture_output=True, text=True, timeout=1500)
+                line = next((l for l in r.stdout.splitlines() if l.startswith("VIOLATION")), "")
+                print(m["id"], m["file"], m["line"], m["op"], c, "DETECTED" if r.returncode else "survived", line[:200], flush=True)
+            except subprocess.TimeoutExpired:
+                print(m["id"], c, "TIMEOUT", flush=True)
+        shutil.rmtree(d, ignore_errors=True)
     elif cmd == "show":
         m = {x["id"]: x for x in json.load(open(os.path.join(work, "mutants.json")))}[int(sys.argv[3])]
         src = open(os.path.join(REPO, m["file"])).read()
